@@ -149,3 +149,43 @@ CHECKS["C20"] = {
                 "wall-clock behaviour of the real runtime and scheduler", "delay doubling overflow (needs > 2^32 s of waiting)"],
     "assumptions": ["Go select semantics: blocks until a case is ready, picks any ready case (model)", "context.WithTimeout's Done channel fires at the deadline (model)"],
 }
+
+PKI_ASSUME = [
+    "ecdsa.VerifyASN1 = uninterpreted predicate ECDSA_P256(X, Y, digest, r, s) of exactly these five values",
+    "sha256.Sum256 = uninterpreted function of the message bytes (no collision-freeness assumed)",
+    "Certificate.CheckSignature = uninterpreted predicate of (key id, algorithm, signed bytes / document id, r, s)",
+    "Certificate.CheckSignatureFrom nil implies SigBy(cert, parent key); Name.String() is a deterministic function of the name",
+    "Certificate.Verify = Go's documented path validation over the pools (model: <= 1 intermediate per path)",
+    "pem.Decode / x509.ParseCertificate / ParseRevocationList / json.Unmarshal deliver the structure the harness attached to the blob",
+    "pcs.PckCertificateExtensions summarised (decided by C13)", "stubs do not write to their arguments",
+]
+
+CHECKS["C01"] = {
+    "groups": ["pki", "c01"],
+    "quick": {"match": "^H01", "budget": 900},
+    "thorough": {"match": "^[HT]01", "budget": 3000, "query_timeout_ms": 120000},
+    "replay": "model",
+    "what": "verify.TdxQuote (tdxQuoteV4, verifyEvidenceV4, verifyQuote, verifyHash256, tdxProtoQeReportSignature, bytesToEcdsaPubKey, "
+            "abi.SignatureToDER, Header/TdQuoteBody/EnclaveReportToAbiBytes, extractChainFromQuoteV4, verifyPCKCertificationChain) on a structurally "
+            "valid quote with every byte symbolic and an abstract three-certificate chain with symbolic attributes; asserted: err == nil implies "
+            "ECDSA_P256(key halves, SHA256(harness's own serialisation of header||body), signature halves), report data = SHA256(key||auth) || 0^32, "
+            "and CertSig(leaf key, ECDSAWithSHA256, harness's own QE report bytes, QE signature halves)",
+    "bounds": {"qe_auth_data_length": "{0, 1, 32} quick, + {31, 33, 64} thorough (hash UF needs a concrete length)", "trusted_pool": "nil / 1 / 2 certificates"},
+    "outside": ["that ECDSA / SHA-256 are unforgeable / collision free (the 'no bit can change' corollary is cryptographic)"],
+    "assumptions": PKI_ASSUME,
+}
+
+CHECKS["C02"] = {
+    "groups": ["pki", "c02"],
+    "quick": {"match": "^H02", "budget": 900},
+    "thorough": {"match": "^[HT]02", "budget": 3000, "query_timeout_ms": 120000},
+    "replay": "model",
+    "what": "verify.TdxQuote (extractChainFromQuoteV4, verifyPCKCertificationChain, validateCertificate, validateX509Cert, x509Options) on chain blobs "
+            "with 2..4 PEM blocks of symbolic type and a symbolic tail, certificates with fully symbolic attributes and key ids (look-alike names with "
+            "different keys included), caller pool nil / 1 / 2 certificates; asserted: accept implies three CERTIFICATE blocks + optional NUL, role "
+            "names / v3 / ECDSA-SHA256 / P-256 for each position, issuer = parent subject, SigBy on every link incl. self-signed root, and the path "
+            "model holds for the CONFIGURED roots; RootOfTrustToOptions / getTrustedRoots: pool = exactly the listed certificates",
+    "bounds": {"pem_blocks": "2..4", "trusted_pool": "nil, 1, 2 certificates", "bundles": "<= 2 files + <= 2 inline, <= 2 certificates each"},
+    "outside": ["Go's path builder itself (contract stub)", "non-PEM text that encoding/pem skips before or between blocks"],
+    "assumptions": PKI_ASSUME,
+}
